@@ -4,7 +4,10 @@
 // the hook variables the instrumented library calls; all are no-ops unless a simulator sets them.
 package verifhook
 
-import "sort"
+import (
+	"sort"
+	"sync"
+)
 
 var (
 	// YieldHook is called at scheduling points (goroutine starts, wake-ups).
@@ -98,4 +101,36 @@ func RangeMap(m ranger, label string, f func(key, value interface{}) bool) {
 			return
 		}
 	}
+}
+
+// Pool stands in for sync.Pool in the instrumented library (rule G7): sync.Pool hands objects back
+// depending on which P a goroutine happens to run on and on garbage collections, which a simulator
+// cannot decide. This one is a plain LIFO free list: a released object is the next one handed out,
+// which is also the order that exposes use-after-release soonest.
+type Pool struct {
+	New   func() interface{}
+	mu    sync.Mutex
+	items []interface{}
+}
+
+// Get hands out the object released last, or a new one.
+func (p *Pool) Get() interface{} {
+	p.mu.Lock()
+	defer p.mu.Unlock()
+	if n := len(p.items); n > 0 {
+		x := p.items[n-1]
+		p.items = p.items[:n-1]
+		return x
+	}
+	if p.New != nil {
+		return p.New()
+	}
+	return nil
+}
+
+// Put releases an object.
+func (p *Pool) Put(x interface{}) {
+	p.mu.Lock()
+	p.items = append(p.items, x)
+	p.mu.Unlock()
 }
